@@ -188,7 +188,7 @@ def process_nodes_recursive(
                                     import re
 
                                     var_match = re.search(
-                                        r"var\((--[\w-]+)\)", raw_text_color
+                                        r"var\(\s*(--[\w-]+)\s*(?:,.*)?\)", raw_text_color
                                     )
                                     if var_match:
                                         var_name = var_match.group(1)
